@@ -421,7 +421,7 @@ func init() {
 	fw.Register(&fw.Property{
 		ID:          "C09",
 		Level:       "exploration",
-		Rule:        "a seeded history (commit DAG with shared blocks, two roots) is split into a remote repository (memory stores behind an in-process reference HTTP server built from wrgl's own finder/sender/receiver) and a local repository (real badger+sqlite directory); per branch the receiver's ref stands in a seeded relation to the sender's (equal, ahead, behind, diverged, unrelated, new; optional tag); driven through the real `wrgl fetch` / `wrgl push` / `wrgl pull` in-process with refspecs, --depth {0,1,2}, --force / '+' refspecs, max packfile size {1 B, 1 KiB, default}, and through UploadPackSession directly with haves-per-round-trip {1,2,256}; a quarter of the exchanges (and 48 fixed ones) are preceded by an attempt in which one receiver-side store write (or every write from it on) fails, some fetches name one branch of a remote that has more branches and an off-branch tag, some follow an earlier --depth 1 fetch of an older position (incl. tips that revert to a shallow commit's table), some pushes come from a shallow clone (must be refused), the remote may put a branch on a commit left shallow (its table must arrive), `wrgl fetch tables` must complete what a shallow fetch left out, and JSON answers trickle byte by byte in the slow cases; oracle over key->bytes snapshots of both sides before/after and the server's request log: every created/moved ref has all ancestors, every newly received commit within depth has a table that passes the structural monitor, nothing that existed changed, shared objects are byte-identical, the sender is untouched, and an immediately repeated exchange sends no wants, stores nothing and changes no ref or reflog; distinct_nontrivial = distinct exchanges that updated at least one ref",
+		Rule:        "a seeded history (commit DAG with shared blocks, two roots) is split into a remote repository (memory stores behind an in-process reference HTTP server built from wrgl's own finder/sender/receiver) and a local repository (real badger+sqlite directory); per branch the receiver's ref stands in a seeded relation to the sender's (equal, ahead, behind, diverged, unrelated, new; optional tag); driven through the real `wrgl fetch` / `wrgl push` / `wrgl pull` in-process with refspecs, --depth {0,1,2}, --force / '+' refspecs, max packfile size {1 B, 1 KiB, default}, and through UploadPackSession directly with haves-per-round-trip {1,2,256}; a quarter of the exchanges (and 48 fixed ones) are preceded by an attempt in which one receiver-side store write (or every write from it on) fails, some fetches name one branch of a remote that has more branches and an off-branch tag, some follow an earlier --depth 1 fetch of an older position (incl. tips that revert to a shallow commit's table), some pushes come from a shallow clone (must be refused), the remote may put a branch on a commit left shallow (its table must arrive), `wrgl fetch tables` must complete what a shallow fetch left out, the remote may put a tag no refspec names on a shallow commit, a depth fetch may follow a depth fetch, two refspecs may send a branch and a same-named tag to one destination, a first push may come from a repository that tracks another remote, `fetch --all` may address two remotes that differ only in the path of their URL (each tracking ref must stand at its own remote's value), and JSON answers trickle byte by byte in the slow cases; oracle over key->bytes snapshots of both sides before/after and the server's request log: every created/moved ref has all ancestors, every newly received commit within depth has a table that passes the structural monitor, nothing that existed changed, shared objects are byte-identical, the sender is untouched, and an immediately repeated exchange sends no wants, stores nothing and changes no ref or reflog; distinct_nontrivial = distinct exchanges that updated at least one ref",
 		Assumptions: []string{"the reference server (harness/refserver, ~350 lines) is trusted harness logic; it self-checks session termination", "authentication, retries and the real wrgld server are not exercised"},
 		Workers:     8,
 		Gen: func(tier string, seed int64) []fw.Case {
